@@ -3,7 +3,7 @@ import ast
 
 from ..core import AnalysisError
 from ..cfront import strip, text
-from .. import ckern, ceffects, xlayer, pyxread
+from .. import cq, pq, cnorm, ckern, ceffects, xlayer, pyxread
 from ..ceval import CEval, find_all, loop_parts, body_stmts, loop_var, stores_to
 from ..formula import Canon, Ratio, Undecided, show, num
 from ..pyfront import Mod, dotted, const_value
@@ -20,75 +20,96 @@ EXPLANATION = (
     "totals on a given grid are not computed.")
 
 
+def lvalue_of(arg):
+    """pointer argument -> rule-notation text of the scalar it designates: `&x` -> x, array `a` -> a[0]"""
+    a = arg
+    while a.get("kind") in ("ParenExpr", "ImplicitCastExpr", "CStyleCastExpr"):
+        a = a["inner"][0]
+    if a.get("kind") == "UnaryOperator" and a.get("opcode") == "&":
+        return text(a["inner"][0]).replace(" ", "")
+    if a.get("kind") == "DeclRefExpr":
+        return a["referencedDecl"]["name"] + "[0]"
+    return None
+
+
 def run(rep):
-    rep.rule("R11.a", "the summand of the walk is the origin cell's contribution, added at the cell just reached; walk advances idxup <- idxdown")
+    rep.rule("R11.a", "the summand of the walk is the origin cell's contribution, added at the cell just reached; walk advances current <- downstream")
     rep.rule("R11.b", "accumulation starts as an independent clone of the field to accumulate (each cell counts itself)")
     rep.rule("R11.c", "the kernel only reads flow directions and the field; the wrapper raises on the error code")
     rep.rule("R11.d", "terminal cells get the no-data value at the walk's current cell, exactly when the downstream code is negative; walk length capped by a counter incremented on every step; default cap nrows*ncols")
     K = ckern.analyze(rep.repo)
-    fn = K["fns"].get("c_accumulate")
-    if fn is None:
+    if K["fns"].get("c_accumulate") is None:
         raise AnalysisError("gis/c_grid.c: c_accumulate not found")
+    fn = ckern.normalised(K, "c_accumulate", rep.repo)
     file = fn["file"]
-    top = [s for s in fn["body"].get("inner", []) if s.get("kind")]
-    outer = [s for s in top if s.get("kind") == "ForStmt"]
+    top = body_stmts(fn["body"])
+    outer = [s for s in top if s.get("kind") in ("ForStmt", "WhileStmt") and "accumulation" in cnorm.writes(s)[1]]
     if len(outer) != 1:
         raise AnalysisError(f"{file}: c_accumulate cell loop not found")
     outer = outer[0]
-    iv = loop_var(outer)
+    olr = cq.loop_range(outer, cq.preceding(top, outer))
+    iv = olr["var"] if olr else loop_var(outer)
     ostm = body_stmts(loop_parts(outer)[3])
-    wl = [s for s in ostm if s.get("kind") == "WhileStmt"]
+    wl = [s for s in ostm if s.get("kind") in ("WhileStmt", "ForStmt") and find_all(s, lambda n: n.get("kind") == "CallExpr" and text(n["inner"][0]) == "c_downstream")]
     if len(wl) != 1:
         raise AnalysisError(f"{file}: c_accumulate walk loop not found")
     wl = wl[0]
-    rep.unit(f"{file}: c_accumulate (cell loop, downstream walk); gis/grid.py: accumulate")
-    cond = text(loop_parts(outer)[1]).replace(" ", "")
-    ntot = [s for s in top if s.get("kind") == "BinaryOperator" and text(s["inner"][0]) == "ntot"]
-    rep.check(cond == f"{iv}<ntot" and ntot and text(ntot[0]["inner"][1]).replace(" ", "") in ("nrows*ncols", "ncols*nrows"), "R11.a", file, "c_accumulate",
-              "every cell of the grid starts a walk", f"loop `{cond}`", line=outer.get("_line"))
+    rep.unit(f"{file}: c_accumulate (normalised: cell loop, downstream walk); gis/grid.py: accumulate")
+    rep.check(cq.range_is(olr, "0", "nrows*ncols-1"), "R11.a", file, "c_accumulate", "every cell of the grid starts a walk", "", line=outer.get("_line"))
+    dcall = find_all(wl, lambda n: n.get("kind") == "CallExpr" and text(n["inner"][0]) == "c_downstream")
+    okd = len(dcall) == 1 and len(dcall[0]["inner"]) == 8 and all(cq.same_expr(a, w) for a, w in zip(dcall[0]["inner"][1:6], ("nrows", "ncols", "flowdircode", "flowdir", "1")))
+    CUR = lvalue_of(dcall[0]["inner"][6]) if okd else None
+    DOWN = lvalue_of(dcall[0]["inner"][7]) if okd else None
+    rep.check(okd and CUR is not None and DOWN is not None and CUR != DOWN, "R11.a", file, "c_accumulate",
+              "downstream cell of the current cell from c_downstream(grid, codes, flow directions, 1, current, downstream)", "", line=wl.get("_line"))
+    if not (okd and CUR and DOWN):
+        return EXPLANATION
     # state before the walk
     pre = ostm[:ostm.index(wl)]
-    pce = CEval(lambda c: None)
-    penv = {}
-    try:
-        pce._walk([s for s in pre if s.get("kind") != "IfStmt"], penv, [])
-    except Undecided as ex:
-        raise AnalysisError(f"{file}: c_accumulate walk prologue: {ex}")
-    start_ok = [e for e in pce.effects if e.arr == "idxup" and e.val == ('sym', iv)]
-    rep.check(len(start_ok) == 1, "R11.a", file, "c_accumulate", "walk starts at the origin cell: idxup[0] = i", "", line=outer.get("_line"))
-    cnt0 = penv.get("accumulated_cells")
-    rep.check(cnt0 == num(0), "R11.d", file, "c_accumulate", "step counter reset for every walk", f"accumulated_cells = {show(cnt0) if cnt0 else None}", line=outer.get("_line"))
-    wcond = text(loop_parts(wl)[1]).replace(" ", "")
-    rep.check(wcond in ("accumulated_cells<=max_accumulated_cells", "accumulated_cells<max_accumulated_cells", "max_accumulated_cells>=accumulated_cells"),
-              "R11.d", file, "c_accumulate", "walk length capped by the step counter", f"while({wcond})", line=wl.get("_line"))
-    wstm = body_stmts(loop_parts(wl)[3])
-    # two cases: terminal (idxdown < 0) and regular
+    pce = cq.evaluate([s for s in pre if s.get("kind") != "IfStmt"])
+    penv = pce.finals[-1][0] if pce.finals else {}
+    wparts = loop_parts(wl)
+    wlr = cq.loop_range(wl, pre) if wl.get("kind") == "ForStmt" else None
+    # the step counter: the variable compared with max_accumulated_cells in the walk condition
+    counter = None
+    for c_ in cq._conj(wparts[1]):
+        a = cq.cond_atoms(c_, True)
+        if isinstance(a, cq.Atom) and "max_accumulated_cells" in a.d.symbols():
+            others = [x for x in a.d.symbols() if x != "max_accumulated_cells"]
+            if len(others) == 1:
+                counter = others[0]
+                capcond = c_
+    okcap = counter is not None and (cq.same_cond(capcond, f"{counter} <= max_accumulated_cells", True) or cq.same_cond(capcond, f"{counter} < max_accumulated_cells", True))
+    rep.check(okcap, "R11.d", file, "c_accumulate", "walk length capped by a step counter compared with max_accumulated_cells", text(wparts[1]), line=wl.get("_line"))
+    cur0 = penv.get(CUR)
+    rep.check(cur0 is not None and cq.same_expr(cur0, iv), "R11.a", file, "c_accumulate", "walk starts at the origin cell: current = i", show(cur0) if cur0 else "", line=outer.get("_line"))
+    if counter:
+        c0 = penv.get(counter) if wlr is None or wlr["lo"] is None else wlr["lo"]
+        rep.check(c0 is not None and cq.same_expr(c0, "0"), "R11.d", file, "c_accumulate", "step counter reset for every walk", f"{counter} = {show(c0) if c0 else None}", line=outer.get("_line"))
+    wstm = body_stmts(wparts[3])
     for terminal in (True, False):
         def oracle(c, terminal=terminal):
             if c[0] == 'cmp':
-                a, b, o = show(c[2]), show(c[3]), c[1]
-                if a == "DOWN" and b == "0" and o == "<":
+                if cq.same_cond(c, f"{DOWN} < 0", True):
                     return terminal
-                if a == "DOWN" and b == "0" and o == ">=":
+                if cq.same_cond(c, f"{DOWN} >= 0", True):
                     return not terminal
-                if a == "IERR":
+                if "c_downstream" in show(c) or "ierr" in show(c):
                     return False
+            if c[0] in ('and', 'or', 'not'):
+                from .c03 import _bool
+                return _bool(c, oracle)
             return None
-        arr = {"idxdown": lambda idx: ('sym', 'DOWN'), "idxup": lambda idx: ('sym', 'UP')}
-        ce = CEval(oracle, arr)
-        env = {"accumulated_cells": ('sym', 'K0'), iv: ('sym', iv), "ierr": ('sym', 'IERR')}
-        # the call of c_downstream is an effect; its result is modelled by the symbols DOWN / IERR
-        stm2 = []
-        for s in wstm:
-            if s.get("kind") == "BinaryOperator" and s.get("opcode") == "=" and text(s["inner"][0]) == "ierr":
-                continue
-            stm2.append(s)
+        ce = CEval(oracle)
+        ce.summarise_loops = True
+        env = {counter: ('sym', 'K0')} if counter else {}
         try:
-            ce._walk(stm2, env, [])
+            ce.run(wstm, env)
         except Undecided as ex:
             rep.undecided("R11.a", file, "c_accumulate", f"walk body ({'terminal' if terminal else 'regular'} step)", str(ex), line=wl.get("_line"))
             continue
-        und = [r for r in ce.returns if r[1]]
+        fins = [f_ for f_ in ce.finals if f_[2] != "return"]
+        und = [f_ for f_ in fins if f_[1]]
         if und:
             conds = "; ".join(show(c) for c, t in und[0][1])
             if terminal:
@@ -99,30 +120,28 @@ def run(rep):
             continue
         acc = [e for e in ce.effects if e.arr == "accumulation"]
         if terminal:
-            ok = len(acc) == 1 and acc[0].op == "=" and acc[0].idx == ('sym', 'UP') and acc[0].val == ('sym', 'nodata_to_accumulate') and not acc[0].conds
-            brk = any(r[0] == "BreakStmt" for r in ce.returns)
+            ok = len(acc) == 1 and acc[0].op == "=" and cq.same_expr(acc[0].idx, CUR) and cq.same_expr(acc[0].val, "nodata_to_accumulate") and not acc[0].conds
+            brk = any(f_[2] == "BreakStmt" for f_ in fins)
             rep.check(ok and brk, "R11.d", file, "c_accumulate", "terminal cell: accumulation[current cell] = no-data value, walk stops",
                       f"effects {[(e.arr, show(e.idx), e.op, show(e.val)) for e in acc]}", line=wl.get("_line"))
         else:
-            ok = len(acc) == 1 and acc[0].op == "+=" and acc[0].idx == ('sym', 'DOWN')
-            rep.check(ok, "R11.a", file, "c_accumulate", "regular step: one addition, at the cell just reached (accumulation[idxdown])",
+            ok = len(acc) == 1 and acc[0].op == "+=" and cq.same_expr(acc[0].idx, DOWN)
+            rep.check(ok, "R11.a", file, "c_accumulate", "regular step: one addition, at the cell just reached (accumulation[downstream])",
                       f"effects {[(e.arr, show(e.idx), e.op) for e in acc]}", line=wl.get("_line"))
             if ok:
                 v = acc[0].val
-                origin = ('call', 'A:to_accumulate', (('sym', iv),))
-                rep.check(v == origin, "R11.a", file, "c_accumulate", "summand = contribution of the walk's origin cell (to_accumulate[i])",
+                rep.check(cq.same_expr(v, f"to_accumulate[{iv}]"), "R11.a", file, "c_accumulate", "summand = contribution of the walk's origin cell (to_accumulate[i])",
                           f"adds {show(v)}: a value read at the visited cell is added once per upstream cell, so non-uniform fields are not summed over the upstream area",
                           line=acc[0].line)
-            ups = [e for e in ce.effects if e.arr == "idxup" and e.op == "="]
-            rep.check(len(ups) == 1 and ups[0].val == ('sym', 'DOWN'), "R11.a", file, "c_accumulate", "walk advances: idxup[0] = idxdown[0]", "", line=wl.get("_line"))
-            cn = Canon()
-            rep.check(cn.ratio(env["accumulated_cells"]) == cn.ratio(('add', ('sym', 'K0'), num(1))), "R11.d", file, "c_accumulate",
-                      "step counter incremented on every regular step", show(env["accumulated_cells"]), line=wl.get("_line"))
-    dcall = find_all(wl, lambda n: n.get("kind") == "CallExpr" and text(n["inner"][0]) == "c_downstream")
-    okd = len(dcall) == 1 and [text(a).replace(" ", "") for a in dcall[0]["inner"][1:]] == ["nrows", "ncols", "flowdircode", "flowdir", "1", "idxup", "idxdown"]
-    rep.check(okd, "R11.a", file, "c_accumulate", "downstream cell of the current cell from c_downstream(.., 1, idxup, idxdown)", "", line=wl.get("_line"))
+            endf = [f_ for f_ in fins if f_[2] in ("end", "ContinueStmt")]
+            okadv = bool(endf) and all(f_[0].get(CUR) is not None and cq.same_expr(f_[0][CUR], DOWN) for f_ in endf)
+            rep.check(okadv, "R11.a", file, "c_accumulate", "walk advances: current cell <- downstream cell", "", line=wl.get("_line"))
+            if counter:
+                inloop = bool(endf) and all(counter in f_[0] and cq.same_expr(f_[0][counter], "K0 + 1") for f_ in endf)
+                inhead = wlr is not None and wlr["var"] == counter and wlr["step"] == 1 and bool(endf) and all(cq.same_expr(f_[0].get(counter, ('sym', 'K0')), "K0") for f_ in endf)
+                rep.check(inloop or inhead, "R11.d", file, "c_accumulate", "step counter incremented on every regular step", "", line=wl.get("_line"))
     from .c06 import downstream_sentinels
-    okd, oks, dline = downstream_sentinels(K)
+    okd, oks, dline = downstream_sentinels(K, rep.repo)
     rep.check(okd and oks, "R11.d", file, "c_downstream", "cells that drain nowhere get a negative code on every path (-1 default stored unconditionally, -2 for sinks)",
               "the walk recognises terminal cells by a negative downstream code: a missing default leaves a stale cell number", line=dline)
     # R11.c effects
@@ -141,23 +160,49 @@ def run(rep):
     ok, how, _ = xlayer.error_discipline(st)
     rep.check(ok, "R11.c", "gis/grid.py", "accumulate", "kernel error code raises", how, line=st.call.lineno)
     f = st.func
-    acc_def = [n for n in ast.walk(f) if isinstance(n, ast.Assign) and isinstance(n.targets[0], ast.Name) and n.targets[0].id == "accumulation"]
-    okb = len(acc_def) == 1 and ast.unparse(acc_def[0].value).replace(" ", "") in ("to_accumulate.clone()", "to_accumulate.clone(np.float64)")
-    a = {pn: ast.unparse(v[0]).replace(" ", "") for pn, v in st.args.items()}
-    okb = okb and a.get("accumulation") == "accumulation.data" and a.get("to_accumulate") == "to_accumulate.data" and a.get("flowdir") == "flowdir.data"
-    # the clone must come after the last conversion of to_accumulate
-    if okb:
-        last_touch = max([n.lineno for n in ast.walk(f) if isinstance(n, (ast.Assign, ast.Expr)) and "to_accumulate" in ast.unparse(n) and n is not acc_def[0]
-                          and n.lineno < st.call.lineno] or [0])
-        okb = acc_def[0].lineno > last_touch
-    rep.check(okb, "R11.b", "gis/grid.py", "accumulate", "accumulation = to_accumulate.clone() (after the field is final), passed as the accumulated buffer",
-              str(a), line=st.call.lineno)
-    rep.check(a.get("nodata_to_accumulate") == "to_accumulate.nodata", "R11.d", "gis/grid.py", "accumulate", "terminal cells flagged with the field's no-data value",
-              a.get("nodata_to_accumulate"), line=st.call.lineno)
-    cap = [n for n in ast.walk(f) if isinstance(n, ast.Assign) and isinstance(n.targets[0], ast.Name) and n.targets[0].id == "max_accumulated_cells"
-           and isinstance(n.value, ast.BinOp)]
-    okc = bool(cap) and ast.unparse(cap[0].value).replace(" ", "") in ("flowdir.nrows*flowdir.ncols", "flowdir.ncols*flowdir.nrows")
-    rep.check(okc, "R11.d", "gis/grid.py", "accumulate", "default walk cap = number of cells (nrows*ncols)", ast.unparse(cap[0].value) if cap else "", line=f.lineno)
-    unit = [n for n in ast.walk(f) if isinstance(n, ast.Call) and isinstance(n.func, ast.Attribute) and n.func.attr == "fill" and dotted(n.func.value) == "to_accumulate"]
-    rep.check(bool(unit) and const_value(unit[0].args[0]) == 1, "R11.b", "gis/grid.py", "accumulate", "default field is the unit field (cell counts)", "", line=f.lineno)
+    pargs = pq.call_arguments(f, st.call, list(st.shim.params))
+    # the field: the caller's grid (dtype set to float64) or, by default, a unit field cloned from the flow-direction grid
+    need = ("to_accumulate", "accumulation", "nodata_to_accumulate", "flowdir")
+    okclone = oknod = okunit = all(pn in pargs for pn in need)
+    alts = pq.split_where(('tuple', tuple(pargs[pn] for pn in need))) if okclone else []
+    det = ""
+    for cnds, tup in alts:
+        fld, acc, nod, fd = tup[1]
+        if not (pq.call_named(fld, "attr:data") and pq.call_named(acc, "attr:data") and pq.call_named(fd, "attr:data") and fd[2][0] == ('sym', 'flowdir')):
+            okclone = False
+            det = show(acc)[:120]
+            continue
+        FIELD = fld[2][0]
+        if not _is_deep_copy_of(acc[2][0], FIELD):
+            okclone = False
+            det = f"accumulation := {show(acc)[:100]} ; field := {show(fld)[:80]}"
+        if not pq.same(nod, ('call', 'attr:nodata', (FIELD,))):
+            oknod = False
+        default = any(t and pq.same(c, "to_accumulate is None") for c, t in cnds) or any((not t) and pq.same(c, "to_accumulate is not None") for c, t in cnds)
+        if default and not pq.mentions(FIELD, lambda e: pq.call_named(e, "filled") and pq.same(e[2][1], "1")):
+            okunit = False
+    rep.check(okclone and bool(alts), "R11.b", "gis/grid.py", "accumulate", "accumulation = an independent deep copy of the (final) field to accumulate, passed as the accumulated buffer",
+              det, line=st.call.lineno)
+    rep.check(oknod and bool(alts), "R11.d", "gis/grid.py", "accumulate", "terminal cells flagged with the field's no-data value", "", line=st.call.lineno)
+    cap = pargs.get("max_accumulated_cells")
+    okc = cap is not None and any(pq.same(v, "flowdir.nrows*flowdir.ncols") for cnds, v in pq.split_where(cap)
+                                  if any(t and pq.same(c, "max_accumulated_cells == -1") for c, t in cnds) or
+                                  any((not t) and pq.same(c, "max_accumulated_cells != -1") for c, t in cnds))
+    rep.check(okc, "R11.d", "gis/grid.py", "accumulate", "default walk cap = number of cells (nrows*ncols)", show(cap)[:120] if cap else "", line=f.lineno)
+    rep.check(okunit and bool(alts), "R11.b", "gis/grid.py", "accumulate", "default field is the unit field (cell counts)", "", line=f.lineno)
     return EXPLANATION
+
+
+def _is_deep_copy_of(e, field):
+    """e is field.clone(..) / copy.deepcopy(field) / field.clone().astype-like conversions of it"""
+    for _c, v in pq.split_where(e):
+        ok = False
+        if pq.call_named(v, ".clone") and pq.same(v[2][0], field):
+            ok = True
+        if pq.call_named(v, ".deepcopy") and len(v[2]) == 2 and pq.same(v[2][1], field):
+            ok = True
+        if pq.call_named(v, "f:deepcopy") and pq.same(v[2][0], field):
+            ok = True
+        if not ok:
+            return False
+    return True
